@@ -2207,7 +2207,9 @@ static int fld_u(const char *s, unsigned long max, unsigned long *out)
   return 1;
 }
 
-/* one RR: TYPE:rdata...[:ttl][@owner].  Returns 0 on bad spec. */
+static int parse_class(const char *s, long *out);
+
+/* one RR: TYPE:rdata...[:ttl][@owner][@@class].  Returns 0 on bad spec. */
 static int add_rr(ares_dns_record_t *rec, ares_dns_section_t sect,
                   const char *spec, const char *defowner, long ttlall)
 {
@@ -2218,6 +2220,7 @@ static int add_rr(ares_dns_record_t *rec, ares_dns_section_t sect,
   ares_dns_rec_type_t type;
   ares_dns_rr_t      *rr  = NULL;
   unsigned long       ttl = 300;
+  ares_dns_class_t    rrclass = ARES_CLASS_IN;
   int                 need; /* number of rdata fields */
   char                v6[128];
   unsigned long       u;
@@ -2227,6 +2230,19 @@ static int add_rr(ares_dns_record_t *rec, ares_dns_section_t sect,
     return 0;
   }
   strcpy(buf, spec);
+  {
+    /* optional "@@<class>" suffix (IN, CH, HS, NONE, ANY or a number); default IN */
+    char *cls = strstr(buf, "@@");
+    if (cls != NULL) {
+      long cv;
+      *cls  = 0;
+      cls  += 2;
+      if (!parse_class(cls, &cv)) {
+        return 0;
+      }
+      rrclass = (ares_dns_class_t)cv;
+    }
+  }
   owner = strrchr(buf, '@');
   if (owner != NULL) {
     *owner++ = 0;
@@ -2300,7 +2316,7 @@ static int add_rr(ares_dns_record_t *rec, ares_dns_section_t sect,
   if (owner == NULL) {
     owner = (char *)defowner;
   }
-  if (ares_dns_record_rr_add(&rr, rec, sect, owner, type, ARES_CLASS_IN,
+  if (ares_dns_record_rr_add(&rr, rec, sect, owner, type, rrclass,
                              (unsigned int)ttl) != ARES_SUCCESS) {
     return 0;
   }
